@@ -576,6 +576,7 @@ def signature_of(cls, v):
 # ------------------------------------------------------------------- main --
 def finding_from(v, i, seed, minimise=True):
     cls = v["class"]
+    set_min_budget()
     if os.environ.get("VERIF_NO_MINIMISE"):
         minimise = False
     record = {"engine": "modsim", "program_index": i, "run_seed": "%d-%s-%s" % (run_seed(seed, TAG, i), v["kind"], sha(v["detail"])[:6]),
